@@ -71,7 +71,9 @@ def run(repo: Repo, rep: Report, tier: str) -> None:
                     if name in strict:
                         for pos in strict[name]:
                             if pos < len(c.args):
-                                a = c.args[pos]
+                                from sa.match import Locals as _Loc
+
+                                a = _Loc(fn.node).inline(c.args[pos], stop=(kvar,))
                                 uses_key = any(isinstance(x, ast.Name) and x.id == kvar for x in ast.walk(a))
                                 if not uses_key:
                                     continue
